@@ -59,6 +59,9 @@ func (e *Env) lookup(name string) (Val, bool) {
 	}
 	for fr := e.frame; fr != nil; fr = fr.parent {
 		if v, ok := fr.names[name]; ok {
+			if lr, isLocal := v.(localRef); isLocal {
+				return e.x.localGet(fr, lr), true
+			}
 			return v, true
 		}
 	}
